@@ -84,6 +84,7 @@ def invalid_mix(left, right):
 @contract(T + "and_composition", prop=["C04", "C05", "C06"])
 class AndComposition:
     """never raises; EvaluatedComposition with cf = and4(left.cf, right.cf)"""
+    runtime_checkable = True
     returns = EC_RESULT
     clause_props = CLAUSE_PROPS
     params = dict(self=SELF, left=node(), right=node())
@@ -106,6 +107,7 @@ class AndComposition:
 @contract(T + "_or_xor_composition", prop=["C04", "C05", "C06"])
 class OrXorComposition:
     """raises InvalidExpressionError iff invalid_mix(left, right); otherwise cf = or4 / xor4 by the literal passed"""
+    runtime_checkable = True
     returns = EC_RESULT
     clause_props = CLAUSE_PROPS
     params = dict(self=SELF, left=node(), right=node(),
@@ -130,6 +132,7 @@ class OrXorComposition:
 
 @contract(T + "or_composition", prop=["C04", "C05", "C06"])
 class OrComposition:
+    runtime_checkable = True
     returns = EC_RESULT
     clause_props = CLAUSE_PROPS
     params = dict(self=SELF, left=node(), right=node())
@@ -154,6 +157,7 @@ class OrComposition:
 
 @contract(T + "xor_composition", prop=["C04", "C05", "C06"])
 class XorComposition:
+    runtime_checkable = True
     returns = EC_RESULT
     clause_props = CLAUSE_PROPS
     params = dict(self=SELF, left=node(), right=node())
@@ -191,6 +195,7 @@ def then_also_unsupported(other_condition):
 class ThenAlso:
     """keeps the partner's state; NotImplementedError iff the partner is neutral and not a Hint; never
     InvalidExpressionError"""
+    runtime_checkable = True
     returns = EC_RESULT
     clause_props = CLAUSE_PROPS
     params = dict(self=SELF, format_constraint=node(), other_condition=node())
@@ -225,6 +230,7 @@ class ThenAlso:
 @contract(T + "then_also_composition", prop=["C04", "C05", "C06"])
 class ThenAlsoComposition:
     """whichever side the unevaluated format constraint is on, the OTHER operand's state is kept"""
+    runtime_checkable = True
     returns = EC_RESULT
     clause_props = CLAUSE_PROPS
     params = dict(self=SELF, left=node(), right=node())
